@@ -41,12 +41,14 @@ from dask import config
 from dask._expr import ProhibitReuse
 from dask._task_spec import (
     Alias,
+    DataNode,
     GraphNode,
     List,
     Task,
     TaskRef,
     _execute_subgraph,
     convert_legacy_graph,
+    convert_legacy_task,
     cull,
     fuse_linear_task_spec,
 )
@@ -1881,11 +1883,24 @@ def from_sequence(seq, partition_size=None, npartitions=None):
     token = tokenize(seq, partition_size)
     name = f"from_sequence-{token}"
     if len(parts) > 0:
-        d = {(name, i): list(part) for i, part in enumerate(parts)}
+        keys = {(name, i) for i in range(len(parts))}
+        d = {
+            (name, i): _partition_as_data((name, i), list(part), keys)
+            for i, part in enumerate(parts)
+        }
     else:
         d = {(name, 0): []}
 
     return Bag(d, name, len(d))
+
+
+def _partition_as_data(key, part, keys):
+    """A list of elements as it is stored in the graph: as it is, unless the
+    graph machinery would take something in it for a task to run (a tuple headed
+    by a callable, also inside a list or dict) or for a reference to a key"""
+    if isinstance(convert_legacy_task(key, part, keys), GraphNode):
+        return DataNode(key, part)
+    return part
 
 
 def from_url(urls):
